@@ -122,6 +122,7 @@ type c05Node struct {
 	Xattrs   [][2]string `json:"xattrs,omitempty"` // hex key, hex value, in the order they are set
 	Size     int         `json:"size,omitempty"`
 	DataSeed uint64      `json:"data_seed,omitempty"`
+	Pattern  string      `json:"pattern,omitempty"` // content as segments: d<len> = non-zero data, z<len> = zeros, e.g. "d4096z8192d1"
 	Target   string      `json:"target_hex,omitempty"`
 	Major    uint32      `json:"major,omitempty"`
 	Minor    uint32      `json:"minor,omitempty"`
@@ -155,7 +156,39 @@ func (n *c05Node) walk(f func(*c05Node)) {
 	}
 }
 
+// c05PatternData builds content from a pattern of data (never a zero byte) and zero segments.
+func c05PatternData(pat string, seed uint64) []byte {
+	r := vh.NewRand(seed)
+	var out []byte
+	for i := 0; i < len(pat); {
+		kind := pat[i]
+		j := i + 1
+		for j < len(pat) && pat[j] >= '0' && pat[j] <= '9' {
+			j++
+		}
+		n := 0
+		fmt.Sscanf(pat[i+1:j], "%d", &n)
+		seg := make([]byte, n)
+		if kind == 'd' {
+			copy(seg, r.Bytes(n))
+			for k := range seg {
+				if seg[k] == 0 {
+					seg[k] = 0xA5
+				}
+			}
+		}
+		out = append(out, seg...)
+		i = j
+	}
+	return out
+}
+
+func c05PatternSize(pat string) int { return len(c05PatternData(pat, 1)) }
+
 func c05Data(n *c05Node) []byte {
+	if n.Pattern != "" {
+		return c05PatternData(n.Pattern, n.DataSeed)
+	}
 	if n.Size == 0 {
 		return nil
 	}
@@ -416,6 +449,23 @@ func (g *c05Gen) node(name string, depth int, forceDir bool) *c05Node {
 			g.bigPlaced = true
 		}
 		n.DataSeed = r.U64()
+		if r.Chance(1, 8) && g.bigFile == 0 { // zero blocks at every alignment: tails, holes, all zeros
+			blk := []int{512, 4096, 4096, 4096, 65536}[r.Intn(5)]
+			seg := func() int { return []int{0, 1, blk - 1, blk, blk + 1, 2 * blk, 3 * blk, r.Intn(3 * blk)}[r.Intn(8)] }
+			switch r.Intn(5) {
+			case 0:
+				n.Pattern = fmt.Sprintf("z%d", seg())
+			case 1:
+				n.Pattern = fmt.Sprintf("d%dz%d", seg(), seg())
+			case 2:
+				n.Pattern = fmt.Sprintf("d%dz%dd%d", seg(), seg(), seg())
+			case 3:
+				n.Pattern = fmt.Sprintf("z%dd%d", seg(), seg())
+			default:
+				n.Pattern = fmt.Sprintf("d%dz%dd%dz%d", blk, seg(), seg(), blk*(1+r.Intn(3)))
+			}
+			n.Size = c05PatternSize(n.Pattern)
+		}
 	case "link":
 		n.Target = hex.EncodeToString([]byte(g.target()))
 	case "chr", "blk":
@@ -649,5 +699,54 @@ func (g *c05Gen) linkZoo(name string) *c05Node {
 		l.Xattrs = nil
 		d.Children = append(d.Children, l)
 	}
+	return d
+}
+
+// zeroZoo: regular files with zero blocks at every alignment (all zeros, zero tails aligned and not, holes).
+func (g *c05Gen) zeroZoo(name string) *c05Node {
+	d := &c05Node{Name: hex.EncodeToString([]byte(name)), Kind: "dir", Perm: 0755, Sec: 1500000000}
+	pats := []string{"z0", "z1", "z4095", "z4096", "z4097", "z8192", "z12288", "z65536",
+		"d4096z4096", "d100z8092", "d4096z100", "d1z4095", "d4095z1", "d4096z8192d4096", "z4096d1", "z8192d4096", "d1z8191",
+		"d61440z8192", "d4096z4096d4096z4096", "d512z512", "z512"}
+	for i, p := range pats {
+		f := &c05Node{Name: hex.EncodeToString([]byte(fmt.Sprintf("%02d-%s", i, p))), Kind: "file", Perm: 0644, Sec: 1500000000 + int64(i), Nsec: 5,
+			Pattern: p, DataSeed: uint64(i + 1)}
+		f.Size = c05PatternSize(p)
+		d.Children = append(d.Children, f)
+	}
+	return d
+}
+
+// ownerZoo: set-gid / set-uid / sticky directories whose group differs from their children's; children owned
+// by the running user and by others.  (A new entry in a set-gid directory gets the directory's group from the
+// kernel: only an explicit chown gives it its own.)
+func (g *c05Gen) ownerZoo(name string, uid, gid uint32) *c05Node {
+	d := &c05Node{Name: hex.EncodeToString([]byte(name)), Kind: "dir", Perm: 0755, Sec: 1500000000}
+	for i, perm := range []uint32{02775, 02700, 06755, 03777, 04755, 01777, 02070} {
+		sub := &c05Node{Name: hex.EncodeToString([]byte(fmt.Sprintf("dir-%04o", perm))), Kind: "dir", Perm: perm, UID: uid, GID: 4321 + uint32(i), Sec: 1500000100}
+		mk := func(nm, kind string, u, gg uint32) *c05Node {
+			n := &c05Node{Name: hex.EncodeToString([]byte(nm)), Kind: kind, Perm: 0644, UID: u, GID: gg, Sec: 1500000200, Nsec: 7}
+			switch kind {
+			case "file":
+				n.Size, n.DataSeed = 10, 9
+			case "link":
+				n.Target = hex.EncodeToString([]byte("target"))
+			case "chr":
+				n.Major, n.Minor = 1, 3
+			case "dir":
+				n.Perm = 0755
+			}
+			return n
+		}
+		sub.Children = append(sub.Children, mk("dev-ours", "chr", uid, gid), mk("dir-ours", "dir", uid, gid), mk("file-others", "file", 1000, 1000),
+			mk("file-ours", "file", uid, gid), mk("file-ours-setgid", "file", uid, gid), mk("link-ours", "link", uid, gid), mk("link-others", "link", 1000, 2000))
+		sub.Children[4].Perm = 02755
+		if !g.devices {
+			sub.Children = sub.Children[1:]
+		}
+		sort.Slice(sub.Children, func(a, b int) bool { return sub.Children[a].name() < sub.Children[b].name() })
+		d.Children = append(d.Children, sub)
+	}
+	sort.Slice(d.Children, func(a, b int) bool { return d.Children[a].name() < d.Children[b].name() })
 	return d
 }
